@@ -132,7 +132,9 @@ P('C04', claimed=True, level='other', contracts=['synth_controls', 'synth_buildc
               'the flattened defaults of exactly that group\'s names collected into a list of its own; the slot counter is '
               'read BEFORE the unit advances it and name j gets index = that value + widths of the names before it (ghost '
               'prefix sum), argument slot arg_num and the j-th reshaped output; lags name by name, wrapped to the width for '
-              'array defaults; prepended names pass their default and leave the name list. The definition writer '
+              'array defaults; prepended names pass their default and leave the name list. _build_ugen_graph wraps this: an empty '
+              'name list of its own is in force meanwhile (SynthDef.wrap), the graph function is called once with the '
+              'prepended arguments followed by exactly the built controls, the outer names are restored. The definition writer '
               'SynthDef._write_def (eight loop contracts): name, constants, count + EVERY default in slot order, count + '
               'every non-prepended name with ITS first slot, count + every unit writing itself in table order, variant count, '
               'and per variant a FRESH copy of the defaults made for that variant, the given values stored at <first slot of '
